@@ -16,6 +16,27 @@ def divergence(ast):
     return '+'.join(sorted(rm.features(ast))) or 'plain'
 
 
+def gen_session_state(d, V, ms):
+    """what the session did before each matcher is used: filter / breakpoint commands that extend the current matchers
+    (with and without exclusions). What an expression selects must not depend on any of it."""
+    types = [str(t) for t in V.get('type', [])[:6]] or ['wl_surface']
+    names = ['.' + str(n) for n in V.get('name', [])[:6]] or ['.commit']
+    out = []
+    for k in range(len(ms)):
+        cmds = []
+        for _ in range(d.int(0, 2)):
+            t = d.weighted([(3, 'excl'), (3, 'list'), (2, 'one'), (1, 'reset'), (2, 'earlier')])
+            verb = d.choice(['filter ', 'filter ', 'breakpoint '])
+            if t == 'excl': txt = '! ' + d.choice(types + names)
+            elif t == 'list': txt = d.choice(types) + d.choice(names) + ', ' + d.choice(types + names)
+            elif t == 'one': txt = d.choice(types) + d.choice(names)
+            elif t == 'reset': txt = d.choice(['!', '*'])
+            else: txt = rm.render(ms[d.int(0, len(ms) - 1)]['ast'], rm.Plain())
+            cmds.append(verb + txt)
+        out.append(cmds)
+    return out
+
+
 class Semantics(Stage):
     name = 'semantics'
 
@@ -34,7 +55,7 @@ class Semantics(Stage):
             ast = g.top()
             deco = [d.int(0, 99) for _ in range(d.int(4, 12))]
             ms.append(dict(ast=ast, deco=deco))
-        return dict(dialect=d.choice(['new', 'old']), specs=specs, matchers=ms)
+        return dict(dialect=d.choice(['new', 'old']), specs=specs, matchers=ms, before=gen_session_state(d, V, ms))
 
     def execute(self, case):
         from core import matcher
@@ -45,6 +66,9 @@ class Semantics(Stage):
         nt = 0
         for mm in case['matchers']:
             ast = mm['ast']
+            for cmd in (case.get('before') or [[]] * 6)[case['matchers'].index(mm)]:
+                universe.last_session.ctl.process_command(cmd)      # session history: must not influence what an expression selects
+                res.count('session-commands-before-use')
             plain = rm.render(ast, rm.Plain())
             deco = rm.render(ast, rm.Decor(mm['deco']))
             feats = rm.features(ast)
@@ -128,7 +152,7 @@ class EnumArgs(Semantics):
         V = rm.vocab(specs)
         g = rm.Gen(d, V, self.depth(tier), focus='args')
         ms = [dict(ast=g.top(), deco=[d.int(0, 99) for _ in range(d.int(4, 12))]) for _ in range(6)]
-        return dict(dialect=d.choice(['new', 'old']), specs=specs, matchers=ms)
+        return dict(dialect=d.choice(['new', 'old']), specs=specs, matchers=ms, before=gen_session_state(d, V, ms))
 
 
 class ValueKinds(Semantics):
@@ -145,7 +169,7 @@ class ValueKinds(Semantics):
         V = rm.vocab(specs)
         g = rm.Gen(d, V, self.depth(tier), focus='args')
         ms = [dict(ast=g.top(), deco=[d.int(0, 99) for _ in range(d.int(4, 12))]) for _ in range(6)]
-        return dict(dialect=d.choice(['new', 'old']), specs=specs, matchers=ms)
+        return dict(dialect=d.choice(['new', 'old']), specs=specs, matchers=ms, before=gen_session_state(d, V, ms))
 
 
 class C05(Prop):
